@@ -22,7 +22,9 @@ import (
 	tmproto "github.com/tendermint/tendermint/proto/tendermint/types"
 )
 
-var ammTokens = []string{"cusdc", "ceth", "cet1", "cet"}
+// "cet" is a prefix of "cet1" (prefix scans of the provider store); "ibc/A1F2" has upper-case characters, like every
+// IBC voucher denomination (string comparisons of denominations must not normalise case)
+var ammTokens = []string{"cusdc", "ceth", "cet1", "cet", "ibc/A1F2"}
 
 type ammWorld struct {
 	app     *sifapp.SifchainApp
@@ -477,6 +479,19 @@ func (w *ammWorld) policy() {
 	}
 }
 
+// configuredFee is the swap-fee rate the stored parameters configure for a token: the override whose asset
+// string is exactly the token's denomination, else the default rate. (Read from the parameters as stored, not
+// through the keeper's own lookup, which is part of what is being checked.)
+func (w *ammWorld) configuredFee(tok string) *big.Int {
+	sp := w.app.ClpKeeper.GetSwapFeeParams(w.ctx)
+	for _, tp := range sp.TokenParams {
+		if tp.Asset == tok {
+			return tp.SwapFeeRate.BigInt()
+		}
+	}
+	return sp.DefaultSwapFeeRate.BigInt()
+}
+
 func (w *ammWorld) setMarginPool(sym string, on bool) {
 	mp := w.app.MarginKeeper.GetParams(w.ctx)
 	var l []string
@@ -690,7 +705,7 @@ func (w *ammWorld) opSwap(u sdk.AccAddress, sent, recv string, amt, minR *big.In
 			return nD.BigInt(), eD.BigInt(), true
 		}
 		rr := w.app.ClpKeeper.GetPmtpRateParams(w.ctx).PmtpCurrentRunningRate.BigInt()
-		ff := w.app.ClpKeeper.GetSwapFeeRate(w.ctx, *asset(sent), false).BigInt()
+		ff := w.configuredFee(sent)
 		switch {
 		case sent == "rowan":
 			if n, e, ok := depth(recv); ok {
@@ -966,6 +981,20 @@ func init() {
 			w.opAdd(w.users[3], "cusdc", e18(1), e18(1)) // refreshed: inside the lock period at the epoch end
 			w.setHeight(15)
 			w.opEpoch()
+		}
+		// D11: a removal whose payout truncates to zero on both sides still burns the same units from the pool and
+		// from the provider (basis points and units)
+		{
+			w := newAmmWorld(rng, out, 3, -1)
+			w.fundAll()
+			w.opCreate(w.users[0], "ceth", e18(1), e18(1))
+			w.opAdd(w.users[1], "ceth", big.NewInt(100), big.NewInt(100))
+			w.opRm(w.users[1], "ceth", 1)
+			w.opRm(w.users[1], "ceth", 50)
+			w.opCreate(w.users[0], "cusdc", e18(1), big.NewInt(1000))
+			w.opAdd(w.users[1], "cusdc", big.NewInt(1000000000000), big.NewInt(0))
+			w.opRmu(w.users[1], "cusdc", big.NewInt(1))
+			w.opRm(w.users[1], "ceth", 10000)
 		}
 		// D9: a dust provider (its pro-rata refund truncates to zero on both sides) at decommission time, then the
 		// pool is created again by somebody else: no provider record may survive the decommission
